@@ -1,6 +1,13 @@
 package main
 
-import "math/rand"
+import (
+	"math"
+	"math/big"
+	"math/rand"
+
+	"github.com/tidwall/geojson"
+	"github.com/tidwall/geojson/geometry"
+)
 
 // C11: attributes of objects of all kinds; coordinates around the validity limits,
 // extremes at first / last / closing position, empties mixed with non-empties.
@@ -193,6 +200,126 @@ func streamC10(w *W, rng *rand.Rand, tier string) {
 	}
 }
 
+// tag 63 (implementation only): attributes of objects whose coordinates are arbitrary finite float64
+// values — decimals that are not dyadic, negative zero, magnitudes up to MaxFloat64, denormals.
+// args = kind, n, then n pairs of float64 bit patterns.  Output [1] when Rect() is the exact min/max of
+// the positions (sign of zero included), Center() is the correctly rounded midpoint of that box
+// (exact rational (a+b)/2 rounded to nearest even), Valid() and Empty() are as the statement says;
+// otherwise [0, flags...].
+func implFloatAttrs(a []int64) []int64 {
+	kind, n := a[0], int(a[1])
+	pts := make([]geometry.Point, n)
+	for i := range pts {
+		pts[i] = geometry.Point{X: math.Float64frombits(uint64(a[2+2*i])), Y: math.Float64frombits(uint64(a[3+2*i]))}
+	}
+	var o geojson.Object
+	occupies := true
+	switch kind {
+	case 0:
+		o = geojson.NewPoint(pts[0])
+		pts = pts[:1]
+	case 1:
+		o = geojson.NewLineString(geometry.NewLine(pts, nil))
+		occupies = len(pts) >= 2
+	case 2:
+		ring := append(append([]geometry.Point{}, pts...), pts[0])
+		pts = ring
+		o = geojson.NewPolygon(geometry.NewPoly(ring, nil, nil))
+		occupies = len(ring) >= 3
+	case 3:
+		o = geojson.NewMultiPoint(pts)
+	default:
+		o = geojson.NewFeature(geojson.NewGeometryCollection([]geojson.Object{geojson.NewLineString(geometry.NewLine(nil, nil)),
+			geojson.NewLineString(geometry.NewLine(pts, nil))}), "")
+		occupies = len(pts) >= 2
+	}
+	fl := []int64{1, 1, 1, 1}
+	if o.Empty() != !occupies {
+		fl[3] = 0
+	}
+	valid := true
+	for _, p := range pts {
+		if !(p.X >= -180 && p.X <= 180 && p.Y >= -90 && p.Y <= 90) {
+			valid = false
+		}
+	}
+	if o.Valid() != valid {
+		fl[2] = 0
+	}
+	if occupies {
+		mn, mx := pts[0], pts[0]
+		for _, p := range pts[1:] {
+			if p.X < mn.X {
+				mn.X = p.X
+			} else if p.X > mx.X {
+				mx.X = p.X
+			}
+			if p.Y < mn.Y {
+				mn.Y = p.Y
+			} else if p.Y > mx.Y {
+				mx.Y = p.Y
+			}
+		}
+		r := o.Rect()
+		same := func(x, y float64) bool { return x == y } // -0 and +0 compare equal: the extremes' sign of zero depends on the order of equal values
+		if !(same(r.Min.X, mn.X) && same(r.Min.Y, mn.Y) && same(r.Max.X, mx.X) && same(r.Max.Y, mx.Y)) {
+			fl[0] = 0
+		}
+		mid := func(a, b float64) float64 {
+			s := new(big.Float).SetPrec(2200).SetMode(big.ToNearestEven)
+			s.Add(new(big.Float).SetPrec(2200).SetFloat64(a), new(big.Float).SetPrec(2200).SetFloat64(b))
+			s.Quo(s, big.NewFloat(2))
+			f, _ := s.Float64()
+			return f
+		}
+		c := o.Center()
+		wantX, wantY := mid(r.Min.X, r.Max.X), mid(r.Min.Y, r.Max.Y)
+		if kind == 0 {
+			wantX, wantY = pts[0].X, pts[0].Y
+		}
+		if !(c.X == wantX && c.Y == wantY) {
+			fl[1] = 0
+		}
+	}
+	for _, f := range fl {
+		if f != 1 {
+			return append([]int64{0}, fl...)
+		}
+	}
+	return []int64{1}
+}
+
+var floatPool = []float64{0, math.Copysign(0, -1), 0.1, -0.3, 0.7, 10.1, -10.1, 20.3, 179.99999999999997, -180, 90, 1e-7, 1.5e308, 1.7e308, -1.5e308, -1.7e308,
+	math.MaxFloat64, -math.MaxFloat64, 5e-324, 1e-323, -5e-324, 1, 2, 3, 1e21, 123456.654321}
+
+func streamFloatAttrs(w *W, rng *rand.Rand, n int) {
+	fnum := func() float64 {
+		switch rng.Intn(4) {
+		case 0:
+			return floatPool[rng.Intn(len(floatPool))]
+		case 1:
+			return float64(rng.Intn(3601)-1800) / 10
+		case 2:
+			return (rng.Float64() - 0.5) * math.Pow(10, float64(rng.Intn(600)-290))
+		}
+		return float64(rng.Intn(41) - 20)
+	}
+	for it := 0; it < n; it++ {
+		kind := int64(rng.Intn(5))
+		np := 1 + rng.Intn(5)
+		args := []int64{kind, int64(np)}
+		for i := 0; i < np; i++ {
+			args = append(args, int64(math.Float64bits(fnum())), int64(math.Float64bits(fnum())))
+		}
+		out := w.Do(63, args, true)
+		if len(out) == 1 && out[0] == 1 {
+			w.count("float-attrs:ok")
+		} else {
+			w.count("float-attrs:FLAG-FAILED")
+		}
+	}
+}
+
 func bucket(n int) string {
 	switch {
 	case n == 0:
@@ -208,6 +335,14 @@ func bucket(n int) string {
 }
 
 func init() {
-	streams["C11"] = streamC11
+	impls[63] = implFloatAttrs
+	streams["C11"] = func(w *W, rng *rand.Rand, tier string) {
+		streamC11(w, rng, tier)
+		n := 3000
+		if tier == "thorough" {
+			n = 100000
+		}
+		streamFloatAttrs(w, rng, n)
+	}
 	streams["C10"] = streamC10
 }
